@@ -273,7 +273,9 @@ def valid_schema(draw, profile='lang', max_groups=6, max_elements=6, counters=No
     facets = []
     plain = not gen or name.startswith('el')
     if b(0.2) and plain:
-      facets.append(('xml', ('ident', pick(['joint', 'geom', 'tag'])) if b(0.7) else ('str', pick(['joint', 'x-tag']) if not gen else 'joint')))
+      # gen profile: tags that do not occur in dm_control's hand-harvested overlay tables (SINGLETONS etc.)
+      tags = ['jnt', 'gm', 'tag'] if gen else ['joint', 'geom', 'tag']
+      facets.append(('xml', ('ident', pick(tags)) if b(0.7) else ('str', pick(['joint', 'x-tag']) if not gen else 'jnt')))
     if b(0.15):
       facets.append(('field', ('ident', pick(['global', 'quality', 'map']))))
     elements.append(dict(name=name, spec=('mjsS%d' % ei) if b(0.5) else None, facets=facets, members=members, doc=docs()))
@@ -283,9 +285,14 @@ def valid_schema(draw, profile='lang', max_groups=6, max_elements=6, counters=No
     for i in range(1, n_elem):
       lo_parent = 0
       parent = elements[draw(st.integers(lo_parent, i - 1))]
-      if parent['name'] in ('plugin',):
+      if parent['name'] == 'plugin' or elements[i]['name'] == 'plugin':
+        # `plugin` is dropped from projected (default) contexts by the generators, so it must also be reachable from an
+        # unprojected one (as in the real schema): its tree parent is the root; a second link from the default context
+        # is added below to exercise the exclusion
         parent = elements[0]
       parent['members'].append(dict(kind='child', name=elements[i]['name'], card=pick(['?', '!', '*']), doc=docs()))
+    if 'plugin' in names and 'default' in special:
+      elements[special['default']]['members'].append(dict(kind='child', name='plugin', card=pick(['?', '*']), doc=docs()))
     for e in elements[1:n_elem]:
       if e['name'] == 'default' or (e['name'].startswith('el') and b(0.2)):
         e['members'].insert(draw(st.integers(0, len(e['members']))) if b() else len(e['members']),
